@@ -12,7 +12,9 @@ import (
 	"os"
 	"reflect"
 	"strconv"
+	"syscall"
 	"testing"
+	"unsafe"
 
 	"github.com/tencent/goom/internal/bytecode/memory"
 )
@@ -43,34 +45,100 @@ func vEnv(k string, d int) int {
 	return d
 }
 
-// relocate runs goom's pure relocation on code (which lives at `from`) for a trampoline at from-d.
-func relocate(name string, from uintptr, code []byte, d int, have int) relocRec {
+// arena: scratch executable memory for end-to-end relocation: the function bytes are copied to an "origin" slot
+// (followed by int3 padding, as the linker lays functions out) and goom's REAL fixOriginFuncToTrampoline relocates them
+// into a "trampoline" slot (filler followed by int3 padding) through memory.WriteTo; the written bytes are read back.
+type arena struct {
+	org, trp   []byte
+	orgOff     int
+	trpOff     int
+	orgB, trpB uintptr
+}
+
+const trampSlot = 128
+
+func newArena() *arena {
+	mm := func(hint uintptr, size int) []byte {
+		p, _, e := syscall.Syscall6(syscall.SYS_MMAP, hint, uintptr(size), syscall.PROT_READ|syscall.PROT_WRITE|syscall.PROT_EXEC,
+			syscall.MAP_PRIVATE|syscall.MAP_ANON, ^uintptr(0), 0)
+		if e != 0 {
+			panic(e)
+		}
+		return unsafe.Slice((*byte)(unsafe.Pointer(p)), size)
+	}
+	a := &arena{}
+	a.org = mm(0x20000000, 192<<20)
+	a.orgB = uintptr(unsafe.Pointer(&a.org[0]))
+	a.trp = mm(a.orgB+0x30000000, 64<<20) // trampolines about 768 MiB above the origins (relative jumps both ways)
+	a.trpB = uintptr(unsafe.Pointer(&a.trp[0]))
+	return a
+}
+
+// relocate runs goom's real relocation end to end and returns one record.
+func (a *arena) relocate(name string, code []byte, have int, far bool) relocRec {
 	size := len(code)
 	if have > size {
 		have = size
 	}
-	rec := relocRec{Name: name, D: d, Fn: vInts(code[:have]), Size: size, Out: []int{}, Tail: []int{}}
+	// origin slot: code + 32 bytes of int3 padding, 16-aligned
+	o := (a.orgOff + 15) &^ 15
+	if o+size+64 > len(a.org) || a.trpOff+trampSlot+64 > len(a.trp) {
+		panic("arena exhausted")
+	}
+	// goom leaves the pages it wrote r-x: make this record's slots writable for the harness again
+	rw := func(m []byte, off, n int) {
+		lo := off &^ 4095
+		hi := (off + n + 4095) &^ 4095
+		if hi > len(m) {
+			hi = len(m)
+		}
+		syscall.Mprotect(m[lo:hi], syscall.PROT_READ|syscall.PROT_WRITE|syscall.PROT_EXEC)
+	}
+	rw(a.trp, a.trpOff, trampSlot+64)
+	copy(a.org[o:], code)
+	for i := 0; i < 32; i++ {
+		a.org[o+size+i] = 0xCC
+	}
+	a.orgOff = o + size + 32
+	t := a.trpOff
+	for i := 0; i < trampSlot; i++ {
+		a.trp[t+i] = 0x90
+	}
+	for i := 0; i < 32; i++ {
+		a.trp[t+trampSlot+i] = 0xCC
+	}
+	a.trpOff = t + trampSlot + 32
+	origin, tramp := a.orgB+uintptr(o), a.trpB+uintptr(t)
+	rec := relocRec{Name: name, D: int(origin) - int(tramp), Fn: vInts(code[:have]), Size: size, Out: []int{}, Tail: []int{}}
 	func() {
 		defer func() {
 			if e := recover(); e != nil {
 				rec.Err = "panic:" + fmt.Sprint(e)
 			}
 		}()
-		cp := make([]byte, len(code))
-		copy(cp, code)
-		tramp := uintptr(int(from) - d)
-		fixed, n, err := fixRelativeAddr(from, cp, tramp, size, 13)
-		if err != nil {
+		if _, err := fixOriginFuncToTrampoline(origin, tramp, 13); err != nil {
 			rec.Err = "err:" + err.Error()
-			return
-		}
-		rec.N, rec.Out = n, vInts(fixed)
-		if len(fixed) < len(code) {
-			rec.Tail = vInts(jmpToOriginFunctionValue(tramp+uintptr(len(fixed)), from+uintptr(n)))
 		}
 	}()
-	if len(rec.Err) > 80 {
-		rec.Err = rec.Err[:80]
+	// what goom wrote (first 96 bytes of the slot; untouched filler is 0x90)
+	rec.Out = vInts(a.trp[t : t+96])
+	// refusals must leave the placeholder untouched
+	if rec.Err != "" {
+		for i := 0; i < trampSlot; i++ {
+			if a.trp[t+i] != 0x90 {
+				rec.Err = "DIRTY-REFUSAL:" + rec.Err
+				break
+			}
+		}
+		for i := 0; i < size; i++ {
+			if a.org[o+i] != code[i] {
+				rec.Err = "DIRTY-ORIGIN:" + rec.Err
+				break
+			}
+		}
+	}
+	if len(rec.Err) > 90 {
+		rec.Err = rec.Err[:90]
 	}
 	return rec
 }
@@ -105,7 +173,7 @@ func TestVerifRelocSweep(t *testing.T) {
 	enc := json.NewEncoder(bw)
 	rng := rand.New(rand.NewSource(int64(vEnv("VERIF_SEED", 1))))
 	sample, maxSize, have := vEnv("VERIF_SAMPLE", 1<<30), vEnv("VERIF_MAXSIZE", 1500), vEnv("VERIF_HAVE", 400)
-	dists := []int{0x100000, -0x200000, 0x40, -0x60}[:vEnv("VERIF_NDIST", 2)]
+	dists := []int{1, 2, 3, 4}[:vEnv("VERIF_NDIST", 1)] // repetitions: every run gets its own slots, hence its own distance
 	var idx []int
 	for i, fn := range tab.Funcs {
 		size := int(fn.End - fn.Entry)
@@ -118,6 +186,7 @@ func TestVerifRelocSweep(t *testing.T) {
 		idx = idx[:sample]
 	}
 	cnt := 0
+	ar := newArena()
 	for _, i := range idx {
 		fn := tab.Funcs[i]
 		lo, hi := int(fn.Entry-text.Addr), int(fn.End-text.Addr)
@@ -134,9 +203,123 @@ func TestVerifRelocSweep(t *testing.T) {
 			continue
 		}
 		for _, d := range dists {
-			enc.Encode(relocate(fn.Name, uintptr(fn.Entry), code[:end], d, have))
+			_ = d
+			enc.Encode(ar.relocate(fn.Name, code[:end], have, false))
 			cnt++
 		}
 	}
 	t.Logf("records=%d", cnt)
+}
+
+type absIns struct {
+	K string `json:"k"`
+	T string `json:"t"`
+}
+type absStream struct {
+	Ins  []absIns `json:"ins"`
+	Tail int      `json:"tail"`
+}
+
+var insLen = map[string]int{"p1": 1, "p3": 3, "p5": 5, "p6": 6, "j8w": 2, "j8n": 2, "jmp8": 2, "jcc32": 6, "jmp32": 5, "call32": 5, "rip7": 7, "lea7": 7, "ret": 1}
+
+// synth turns an abstract stream of spec/Gen_Reloc.tla into machine code.
+func synth(s absStream) []byte {
+	offs := make([]int, len(s.Ins)+1)
+	for i, in := range s.Ins {
+		offs[i+1] = offs[i] + insLen[in.K]
+	}
+	size := offs[len(s.Ins)] + s.Tail
+	target := func(t string) int {
+		switch t {
+		case "entry":
+			return 0
+		case "second":
+			return offs[1]
+		case "end":
+			return size - 1
+		}
+		return size + 0x1000
+	}
+	var code []byte
+	le32 := func(v int) []byte { return []byte{byte(v), byte(v >> 8), byte(v >> 16), byte(v >> 24)} }
+	for i, in := range s.Ins {
+		rel := target(in.T) - offs[i+1]
+		switch in.K {
+		case "p1":
+			code = append(code, 0x50)
+		case "p3":
+			code = append(code, 0x48, 0x89, 0xc0)
+		case "p5":
+			code = append(code, 0xb8, 0x78, 0x56, 0x34, 0x12)
+		case "p6":
+			code = append(code, 0x48, 0xa9, 0x78, 0x56, 0x34, 0x12)
+		case "j8w":
+			code = append(code, 0x74, byte(int8(rel)))
+		case "j8n":
+			code = append(code, 0x75, byte(int8(rel)))
+		case "jmp8":
+			code = append(code, 0xeb, byte(int8(rel)))
+		case "jcc32":
+			code = append(append(code, 0x0f, 0x84), le32(rel)...)
+		case "jmp32":
+			code = append(append(code, 0xe9), le32(rel)...)
+		case "call32":
+			code = append(append(code, 0xe8), le32(rel)...)
+		case "rip7":
+			code = append(append(append(code, 0x83, 0x3d), le32(rel-1)...), 0x7f) // displacement is relative to the END of the instruction
+			code[len(code)-5], code[len(code)-4], code[len(code)-3], code[len(code)-2] = le32(rel)[0], le32(rel)[1], le32(rel)[2], le32(rel)[3]
+		case "lea7":
+			code = append(append(code, 0x48, 0x8d, 0x05), le32(rel)...)
+		case "ret":
+			code = append(code, 0xc3)
+		}
+	}
+	for len(code) < size-1 {
+		code = append(code, 0x31, 0xc0)
+	}
+	code = code[:size-1]
+	return append(code, 0xc3)
+}
+
+// TestVerifRelocStreams: abstract streams enumerated by TLC (VERIF_GEN), synthesised and relocated.
+func TestVerifRelocStreams(t *testing.T) {
+	out, gen := os.Getenv("VERIF_OUT"), os.Getenv("VERIF_GEN")
+	if out == "" || gen == "" {
+		t.Skip()
+	}
+	gf, err := os.Open(gen)
+	if err != nil {
+		t.Fatal(err)
+	}
+	defer gf.Close()
+	w, _ := os.Create(out)
+	defer w.Close()
+	bw := bufio.NewWriterSize(w, 1<<20)
+	defer bw.Flush()
+	enc := json.NewEncoder(bw)
+	sc := bufio.NewScanner(gf)
+	sc.Buffer(make([]byte, 1<<20), 1<<26)
+	n := 0
+	ar := newArena()
+	for sc.Scan() {
+		var s absStream
+		if json.Unmarshal(sc.Bytes(), &s) != nil {
+			continue
+		}
+		code := synth(s)
+		if len(code) < 14 {
+			continue
+		}
+		desc := ""
+		for _, in := range s.Ins {
+			desc += in.K
+			if in.T != "none" {
+				desc += ">" + in.T
+			}
+			desc += " "
+		}
+		enc.Encode(ar.relocate("stream: "+desc+fmt.Sprintf("+tail%d", s.Tail), code, 400, false))
+		n++
+	}
+	t.Logf("records=%d", n)
 }
